@@ -447,6 +447,13 @@ func c20(r *core.Run) {
 				if got := proto.ToIPv6(v.ToIP()); got != v {
 					r.Violation("IPv6:roundtrip", fmt.Sprintf("ToIPv6(IPv6(%x).ToIP()) = %x", v[:], got[:]), fmt.Sprintf("%x", v[:]))
 				}
+				// the other direction, at the level of addresses: a 16-byte address stays that address
+				// (an IPv4-mapped one is not turned into its 4-byte form)
+				if a := netip.AddrFrom16(v); proto.ToIPv6(a).ToIP() != a || !v.ToIP().Is6() || v.ToIP().BitLen() != 128 {
+					r.Violation("IPv6:address-roundtrip", fmt.Sprintf("ToIPv6(%s).ToIP() = %s (Is6=%v, %d bits)", a, proto.ToIPv6(a).ToIP(), v.ToIP().Is6(), v.ToIP().BitLen()), fmt.Sprintf("%x", v[:]))
+				} else if v.String() != a.String() {
+					r.Violation("IPv6:String-form", fmt.Sprintf("IPv6(%x).String() = %s, the address prints as %s", v[:], v.String(), a), fmt.Sprintf("%x", v[:]))
+				}
 				if a, err := netip.ParseAddr(v.String()); err != nil || a.As16() != [16]byte(v) {
 					r.Violation("IPv6:String", fmt.Sprintf("IPv6(%x).String() = %s does not parse back", v[:], v.String()), fmt.Sprintf("%x", v[:]))
 				}
